@@ -362,8 +362,11 @@ def bounded(pr):
                         continue
                     # groups keep file order within a chain; compare as multisets of (type, values) per conformation
                     def key(g):
+                        # ... and the listed determinants (values per kind): which entries are separate rows and which are merged
+                        # into one must not depend on how the partners are numbered
                         return (g['type'], round(g['pka'], 6), round(g['evol'], 6), round(g['buried'], 6), g['coupled'] > 0,
-                                g['reported'], g['discarded'])
+                                g['reported'], g['discarded'],
+                                tuple(tuple(sorted(round(v, 6) for _, v in g['dets'][t])) for t in ('sidechain', 'backbone', 'coulomb')))
                     ka = sorted(map(key, a), key=repr)
                     kb = sorted(map(key, b), key=repr)
                     diff = [x for x, y in zip(ka, kb) if x != y]
